@@ -132,6 +132,20 @@ def binop(it, op, a, b, inplace=False):
     a, b = it.deopt(a), it.deopt(b)
     if isinstance(a, MutSet) or isinstance(b, MutSet):
         return set_binop(it, op, a, b, inplace)
+    if (isinstance(a, MutList) or isinstance(b, MutList)) and isinstance(op, ast.Add):
+        # list + list builds a new list; `a += b` extends the list object a in place (aliases see it)
+        sa = a.val if isinstance(a, MutList) else a
+        sb = b.val if isinstance(b, MutList) else b
+        if inplace and isinstance(a, MutList) and isinstance(sb, SSeq) and sb.kind.py != "list":
+            sb = SSeq(sb.t, KSeq(sb.kind.elem, "list"))  # list += any iterable (list + tuple would be a TypeError)
+        r = binop(it, op, sa, sb)
+        if not isinstance(r, SSeq):
+            raise OutOfSubset("list concatenation with a non-sequence")
+        r = SSeq(r.t, KSeq(r.kind.elem, "list"))
+        if inplace and isinstance(a, MutList):
+            a.val = r
+            return a
+        return MutList(r)
     if isinstance(a, SObj):
         m = inspect.getattr_static(a.cls, name, None)
         if isinstance(m, types.FunctionType):
